@@ -386,20 +386,19 @@ impl<'a, 'p, 'ast> Lexer<'a, 'p, 'ast> {
             }
         }
 
-        let eff_exp = explicit_exp
-            .and_then(|e| i64::try_from(e).ok())
-            .and_then(|e| {
-                let implicit_exp = i64::try_from(implicit_exp).ok()?;
-                if explicit_exp_sign {
-                    implicit_exp.checked_sub(e)
-                } else {
-                    implicit_exp.checked_add(e)
-                }
-            })
-            .ok_or_else(|| {
-                let span = self.make_span(self.start_pos, self.end_pos);
-                LexError::ExpOverflow { span }
-            })?;
+        // An exponent that does not fit is saturated: the literal still denotes
+        // zero, an underflow to zero or an overflow, exactly as with the real exponent.
+        let eff_exp = {
+            let e = explicit_exp
+                .and_then(|e| i64::try_from(e).ok())
+                .unwrap_or(i64::MAX);
+            let implicit_exp = i64::try_from(implicit_exp).unwrap_or(i64::MIN);
+            if explicit_exp_sign {
+                implicit_exp.saturating_sub(e)
+            } else {
+                implicit_exp.saturating_add(e)
+            }
+        };
 
         Ok(self.commit_token(TokenKind::Number(Number {
             digits: self.ast_arena.alloc_str(&digits),
